@@ -41,7 +41,12 @@ def rand_mode(rng):
     return m
 
 
-def fault_sig(f):
+def fault_sig(f, op=""):
+    if f["kind"] == "ubsan" and f["frame"].endswith(":addRule") and "out of bounds" in f.get("detail", ""):
+        # the declared bound of TranslationTableRule.charsdots (finding F18): identified by the table being compiled
+        import os
+        tbl = os.path.basename(op.split(" ")[1].split(",")[0]) if len(op.split(" ")) > 1 else "?"
+        return "C01:ubsan:addRule:charsdots-bound:%s" % tbl
     return "C01:%s:%s:%s" % (f["kind"], f["frame"], f.get("detail", "")[:40])
 
 
@@ -124,11 +129,15 @@ def run(tier):
     # faults = violations
     nfault = 0
     for c in cases:
+        if c.fault and c.fault["kind"] in ("tick-budget", "timeout"):
+            # a call that does not return is decided by C03 (which runs the same generator with a tick budget)
+            v.notes.append("non-terminating call seen (C03 matter): %s" % (c.ops[c.fault.get("op_index", 0)][:160] if c.ops else ""))
+            continue
         if c.fault:
             nfault += 1
             i = c.fault.get("op_index", 0)
             op = c.ops[i] if 0 <= i < len(c.ops) else "?"
-            v.violation(fault_sig(c.fault), "%s in %s while executing: %s" % (c.fault["kind"], c.fault["frame"], op[:300]),
+            v.violation(fault_sig(c.fault, op), "%s in %s while executing: %s" % (c.fault["kind"], c.fault["frame"], op[:300]),
                         {"script": c.setup + c.ops[: i + 1], "fault": {k: c.fault[k] for k in c.fault if k != "stderr_tail"},
                          "stderr_tail": c.fault.get("stderr_tail", "")[-1200:]})
     # allocator correspondence
